@@ -277,7 +277,7 @@ def gen_e2e_case(seed):
 def run_e2e_case(case):
     rng = random.Random(case["seed"] * 7919 + 67)
     net = scenario.random_net(rng, allow_small_pipe=False)
-    net["latency"] = [0.0, 0.005]
+    net["latency"] = [0.0025, 0.005]
     B = case["B"]
     sspec = {"block_size": B, "wait_future_timeout": 50.0, "users": case["users"]}
     sspec.update({k: v for k, v in case["server"].items()})
